@@ -72,6 +72,18 @@ def query_method(fn):
             and st[0].body[0].value.id == st[0].target.id and not st[0].orelse \
             and (len(st) == 1 or (isinstance(st[1], ast.Return) and (st[1].value is None or (isinstance(st[1].value, ast.Constant) and st[1].value.value is None)))):
         return "EFirstOrNone EIter"
+    # first = None; for node in self.finditer(value): first = node; break       return first
+    if len(st) == 3 and isinstance(st[1], ast.For) and isinstance(st[2], ast.Return) and isinstance(st[2].value, ast.Name):
+        a, loop, ret = st
+        tgt = a.target if isinstance(a, ast.AnnAssign) else (a.targets[0] if isinstance(a, ast.Assign) and len(a.targets) == 1 else None)
+        ok = (isinstance(tgt, ast.Name) and tgt.id == ret.value.id and isinstance(a.value, ast.Constant) and a.value.value is None
+              and isinstance(loop.target, ast.Name) and is_self_call(loop.iter, "finditer", ["value"]) and not loop.orelse and len(loop.body) == 2
+              and isinstance(loop.body[0], ast.Assign) and len(loop.body[0].targets) == 1 and isinstance(loop.body[0].targets[0], ast.Name)
+              and loop.body[0].targets[0].id == tgt.id and isinstance(loop.body[0].value, ast.Name) and loop.body[0].value.id == loop.target.id
+              and isinstance(loop.body[1], ast.Break))
+        if ok:
+            return "EFirstOrNone EIter"
+        raise Unsupported("%s: unexpected three-statement body" % fn.name)
     # try: return next(iter(self.finditer(value)))  except StopIteration: return None
     if len(st) == 1 and isinstance(st[0], ast.Try):
         t = st[0]
@@ -91,7 +103,15 @@ def query_method(fn):
     raise Unsupported("%s: unexpected body" % fn.name)
 
 
-def check_finditer(fn):
+def is_root_node(c, arg):
+    """JSONPathNode(value=<arg>, location=(), root=<arg>)"""
+    kw = {k.arg: dump(k.value) for k in c.keywords} if isinstance(c, ast.Call) else {}
+    return isinstance(c, ast.Call) and isinstance(c.func, ast.Name) and c.func.id == "JSONPathNode" and not c.args and kw == {
+        "value": dump(ast.Name(id=arg, ctx=ast.Load())), "location": dump(ast.Tuple(elts=[], ctx=ast.Load())),
+        "root": dump(ast.Name(id=arg, ctx=ast.Load()))}
+
+
+def check_finditer(fn, mod=None):
     """nodes = [JSONPathNode(value=value, location=(), root=value)]; for segment in self.segments: nodes = segment.resolve(nodes); return nodes"""
     st = body_stmts(fn)
     if len(st) != 3:
@@ -102,10 +122,14 @@ def check_finditer(fn):
     ok = isinstance(tgt, ast.Name) and tgt.id == "nodes" and isinstance(val, ast.List) and len(val.elts) == 1
     if ok:
         c = val.elts[0]
-        kw = {k.arg: dump(k.value) for k in c.keywords} if isinstance(c, ast.Call) else {}
-        ok = isinstance(c, ast.Call) and isinstance(c.func, ast.Name) and c.func.id == "JSONPathNode" and not c.args and kw == {
-            "value": dump(ast.Name(id="value", ctx=ast.Load())), "location": dump(ast.Tuple(elts=[], ctx=ast.Load())),
-            "root": dump(ast.Name(id="value", ctx=ast.Load()))}
+        ok = is_root_node(c, "value")
+        if not ok and mod is not None and isinstance(c, ast.Call) and isinstance(c.func, ast.Name) and not c.keywords \
+                and [dump(x) for x in c.args] == [dump(ast.Name(id="value", ctx=ast.Load()))]:
+            # a module-level helper of one parameter whose body is `return JSONPathNode(value=p, location=(), root=p)`
+            for h in mod.body:
+                if isinstance(h, ast.FunctionDef) and h.name == c.func.id and len(h.args.args) == 1 and not h.decorator_list:
+                    hb = body_stmts(h)
+                    ok = len(hb) == 1 and isinstance(hb[0], ast.Return) and is_root_node(hb[0].value, h.args.args[0].arg)
     if not ok:
         raise Unsupported("finditer: unexpected start node")
     ok = (isinstance(loop, ast.For) and isinstance(loop.target, ast.Name) and loop.target.id == "segment"
@@ -154,7 +178,7 @@ def check_compile(fn):
 def emit():
     q = parse("query.py"); e = parse("environment.py"); i = parse("__init__.py")
     Q = find_class(q, "JSONPathQuery"); E = find_class(e, "JSONPathEnvironment")
-    check_finditer(method(Q, "finditer"))
+    check_finditer(method(Q, "finditer"), q)
     qfind = query_method(method(Q, "find"))
     qone = query_method(method(Q, "find_one"))
     # apply = find
